@@ -530,6 +530,14 @@ func (u *Unit) havocAssigns(f *Frame, st *State, env *SpecEnv, con *Contract, po
 		n := u.em.fresh("alloc", "Int")
 		u.assume(st, fmt.Sprintf("(>= %s %s)", n, st.alloc))
 		st.alloc = n
+		for k, t := range u.heapTy {
+			if t == nil {
+				continue
+			}
+			if ax := u.heapAxiom(k, st.heaps[k], t, st.alloc); ax != "" {
+				u.em.assert(ax)
+			}
+		}
 		return
 	}
 	if len(con.Assigns) > 0 || con.Allocates {
